@@ -195,6 +195,37 @@ def eof_case(replay, tail, back, where, shape, crlf=False):
     return {"ok": got_file.endswith(efile) and got_line in exp, "got": (got_file, got_line), "expected": (efile, exp), "files": files}
 
 
+# (name, lines of the importing file after the prefix, acceptable 0-based offsets among those lines)
+IMPORT_DUPS = [("duplicate_import_vs_import", ["from shapes use area", "from other use area"], [0, 1]), ("duplicate_import_vs_definition", ["area :: 5", "", "from shapes use area"], [0, 2]),
+               ("duplicate_definition_vs_import", ["from shapes use area", "", "area :: 5"], [0, 2]), ("duplicate_import_vs_namespace", ["use shapes", "from other use area as shapes"], [0, 1]),
+               ("duplicate_renamed_imports", ["from shapes use area as ar", "from other use side as ar"], [0, 1])]
+
+
+def import_dup_case(replay, body, acc, where, shape, crlf=False):
+    pre = []
+    for j, i in enumerate(shape):
+        t = PREFIX_LINES[i]
+        if "%d" in t: t = t % j
+        pre.append(t)
+    ptxt = "\n".join(pre) + ("\n" if pre else "")
+    extra = ptxt.count("\n")
+    mods = {"shapes.sy": "// shapes\n\n\n\n\n\narea :: 1\nside :: 2\n", "other.sy": "\n\narea :: 3\nside :: 4\n"}
+    text = ptxt + "\n".join(body) + "\n"
+    if where == "main": files = dict(mods, **{"main.sy": PRE + text + "start :: fn do\nend\n"}); efile = "main.sy"; base = 1 + extra
+    else: files = dict(mods, **{"main.sy": PRE + "use lib\nstart :: fn do\nend\n", "lib.sy": text}); efile = "lib.sy"; base = extra
+    if crlf: files[efile] = files[efile].replace("\n", "\r\n")
+    exp = [base + 1 + o for o in acc]
+    d = tempfile.mkdtemp(prefix="c15_", dir=common.SCRATCH)
+    try:
+        for rel, t in files.items(): open(os.path.join(d, rel), "w", encoding="utf-8", newline="").write(t)
+        out = subprocess.run([replay, "errors", "main.sy", "--no-std"], cwd=d, capture_output=True, text=True, timeout=30).stdout
+    finally: shutil.rmtree(d, ignore_errors=True)
+    m = re.search(r"^ERR \w+ \{ (?:kind: .*?, )?file: (File\(\"([^\"]*)\"\)|Lib\(\"[^\"]*\"\)), span: Span \{ file_id: \d+, line_start: (\d+)", out, re.M)
+    if not m: return {"ok": False, "why": "no located error: " + out[:200], "files": files, "expected": (efile, exp)}
+    got_file = m.group(2) or m.group(1); got_line = int(m.group(3))
+    return {"ok": got_file.endswith(efile) and got_line in exp, "got": (got_file, got_line), "expected": (efile, exp), "files": files}
+
+
 def run(tier):
     t0 = time.time()
     from mirsym import pipeline
@@ -242,6 +273,13 @@ def run(tier):
                 nat = eof_case(art["replay"], tail, back, where, shape, crlf); nat_n += 1
                 if not nat["ok"]:
                     fnd.report("wrong-line:eof:%s" % name, "%s at the end of %s after %d lines of preceding text%s: reported at %s, written at %s" % (name, where, len(shape), " (CRLF)" if crlf else "", nat.get("got") or nat.get("why"), nat.get("expected")), nat["files"], cmd="sylt --no-std -o out.lua main.sy")
+    # duplicate names that come in through `from .. use ..`: the error belongs to the importing file, at one of the two colliding statements
+    for name, body, acc in IMPORT_DUPS:
+        for where in ("main", "lib"):
+            for shape, crlf in solver_shapes(stats, 2 if tier == "quick" else 6, hash((name, where, common.seed())) & 0xffff):
+                nat = import_dup_case(art["replay"], body, acc, where, shape, crlf); nat_n += 1
+                if not nat["ok"]:
+                    fnd.report("wrong-line:%s" % name, "%s in %s after %d lines of preceding text: reported at %s, written at %s" % (name, where, len(shape), nat.get("got") or nat.get("why"), nat.get("expected")), nat["files"], cmd="sylt --no-std -o out.lua main.sy")
     cov = {"states": max(1, tot["paths"]), "transitions": max(1, tot["queries"] + stats.queries), "traces_validated_against_impl": nat_n, "samples": samples or [{"note": "none"}],
            "error_kinds": allk + list(SYNTAX), "mir_statements": tot["steps"], "functions_encoded": ["name_resolution::resolve", "dependency::initialization_order", "typechecker::solve"],
            "bounds": {"symbolic": "line map ell: strictly increasing, otherwise arbitrary", "files": 2, "native_preceding_text_shapes_per_case": 2 if tier == "quick" else 6}, "known_findings_seen": sorted(fnd.seen_known)}
